@@ -80,6 +80,10 @@ impl Shard {
 					let e = self.report.counters.entry("max_observer_steps_until_drained".to_string()).or_insert(0);
 					*e = (*e).max(spins);
 				}
+				let zb = ZERO_BYTE_TAIL.swap(0, std::sync::atomic::Ordering::SeqCst);
+				if zb > 0 {
+					*self.report.counters.entry("zero_byte_transactions_committed_to_an_idle_pipeline".to_string()).or_insert(0) += zb;
+				}
 				let kept = KEPT_LOGS_AT_LIMIT.swap(0, std::sync::atomic::Ordering::SeqCst);
 				if kept > 0 {
 					*self.report.counters.entry("executions_with_16_applied_log_files_kept".to_string()).or_insert(0) += kept;
